@@ -135,6 +135,12 @@ theorem signature_roundtrip_512 (salt s : List Nat) (hs : salt.length = 40) (hb 
   have hh : (Gen.sigFeltEncoding * 32 % 256 ||| 16 ||| ilog2 625 % 256) = 89 := by decide
   simp [e1, e2, hh]
 
+/-- … for both variants: 666 / 1280 bytes, header 0x59 / 0x5a -/
+theorem signature_roundtrip (N L : Nat) (hNL : (N = 512 ∧ L = 625) ∨ (N = 1024 ∧ L = 1239)) (salt s : List Nat)
+    (hs : salt.length = 40) (hb : s.length = L) :
+    sigFromBytes N (sigToBytes salt s) = .ok (.ok (salt, s)) ∧ (sigToBytes salt s).length = 41 + L :=
+  ⟨KeyCodec.sig_parse N L salt s hs hb hNL, by simp [sigToBytes, hs, hb]; omega⟩
+
 /-! ### non-vacuity -/
 example : deserializeField (intBits 6 (-31)) = some 12258 ∧ deserializeField (intBits 8 127) = some 127 := by decide
 
